@@ -723,24 +723,36 @@ pub fn unit_c09(w: &World, seed: u64, unit: u64, tier: Tier) -> Vec<Case> {
                 out.push(c);
             }
         }
-        // container-of-container bombs: list<list<...>> headers only
-        let mut cb = Vec::new();
-        for _ in 0..d.min(5000) {
-            match proto {
-                Proto::Binary => cb.extend_from_slice(&[T_LIST, 0, 0, 0, 1]),
-                Proto::BinaryLE => cb.extend_from_slice(&[T_LIST, 1, 0, 0, 0]),
-                Proto::Compact => cb.push(0x19),
+        // container-of-container bombs (headers only): lists, sets and map values all the way down, in
+        // every protocol, at the drawn depth and at 60 000 levels (a recursive skipper that forgets to
+        // count a level needs that many to run out of a 2 MiB stack)
+        for bproto in [Proto::Binary, Proto::BinaryLE, Proto::Compact] {
+            for (kind, kname) in [(T_LIST, "list"), (T_SET, "set"), (T_MAP, "map")] {
+                for bd in [d, 60_000usize] {
+                    let mut cb = Vec::new();
+                    for _ in 0..bd {
+                        match (bproto, kind) {
+                            (Proto::Binary, T_MAP) => cb.extend_from_slice(&[T_I8, T_MAP, 0, 0, 0, 1, 0]),
+                            (Proto::BinaryLE, T_MAP) => cb.extend_from_slice(&[T_I8, T_MAP, 1, 0, 0, 0, 0]),
+                            (Proto::Compact, T_MAP) => cb.extend_from_slice(&[0x01, 0x3B, 0x00]),
+                            (Proto::Binary, k) => cb.extend_from_slice(&[k, 0, 0, 0, 1]),
+                            (Proto::BinaryLE, k) => cb.extend_from_slice(&[k, 1, 0, 0, 0]),
+                            (Proto::Compact, T_LIST) => cb.push(0x19),
+                            (Proto::Compact, _) => cb.push(0x1A),
+                        }
+                    }
+                    let base = Base { proto: bproto, level: Level::Skip(kind), bytes: cb.clone(), spans: vec![], note: format!("{}bomb{}", kname, bd), tv: None, conforming: true };
+                    for stream in [false, true] {
+                        let mut c = mk_case(prop, &base, unit);
+                        c.bytes = cb.clone();
+                        c.run_mem = !stream;
+                        c.run_stream = stream;
+                        c.fault = format!("{}nest{}", kname, bd);
+                        c.fault_kind = "nesting_bomb".into();
+                        out.push(c);
+                    }
+                }
             }
-        }
-        let base = Base { proto, level: Level::Skip(T_LIST), bytes: cb.clone(), spans: vec![], note: format!("listbomb{}", d), tv: None, conforming: true };
-        for stream in [false, true] {
-            let mut c = mk_case(prop, &base, unit);
-            c.bytes = cb.clone();
-            c.run_mem = !stream;
-            c.run_stream = stream;
-            c.fault = format!("listnest{}", d);
-            c.fault_kind = "nesting_bomb".into();
-            out.push(c);
         }
     } else {
         let b = gen_base(w, &mut r, Mix { gen: 60, prim: 30, envelope: 10 }, None);
